@@ -472,6 +472,11 @@ private:
         n.write_bytes_be(signum, data);
         std::size_t length = data.size();
 
+        if (pack_strings_ && length >= jsoncons::cbor::detail::min_length_for_stringref(next_stringref_))
+        {
+            ++next_stringref_; // the byte string of a bignum takes a stringref index like any other string
+        }
+
         if (is_neg)
         {
             write_tag(3);
@@ -947,7 +952,7 @@ private:
             auto it = bytestringref_map_.find(bs);
             if (it == bytestringref_map_.end())
             {
-                bytestringref_map_.emplace(std::make_pair(bs, next_stringref_++));
+                bytestringref_map_.emplace(std::make_pair(bs, next_stringref_)); // index taken by write_byte_string
                 write_byte_string(bs);
             }
             else
@@ -976,7 +981,7 @@ private:
             auto it = bytestringref_map_.find(bs);
             if (it == bytestringref_map_.end())
             {
-                bytestringref_map_.emplace(std::make_pair(bs, next_stringref_++));
+                bytestringref_map_.emplace(std::make_pair(bs, next_stringref_)); // index taken by write_byte_string
                 write_tag(raw_tag);
                 write_byte_string(bs);
             }
@@ -996,8 +1001,15 @@ private:
         JSONCONS_VISITOR_RETURN;
     }
 
+    // Writes a byte string literally. Inside a stringref namespace every definite-length string
+    // that is long enough is assigned the next index by a decoder, whether or not it is ever
+    // referenced (http://cbor.schmorp.de/stringref), so the running index advances here.
     void write_byte_string(const byte_string_view& b) 
     {
+        if (pack_strings_ && b.size() >= jsoncons::cbor::detail::min_length_for_stringref(next_stringref_))
+        {
+            ++next_stringref_;
+        }
         write_type_and_length(0x40, b.size());
 
         sink_.append(b.data(), b.size());
